@@ -75,7 +75,7 @@ macro_rules! contains {
 }
 
 harnesses! {
-    fn c12_q_symbol_union_intersection [2] {
+    fn c12_q_symbol_union_intersection [10] {
         // all 256 symbol pairs: the decoded symbol of a|b / a&b is the IUPAC letter of the union / intersection
         let (a, b) = (any_u8(), any_u8());
         assume(a < 16 && b < 16);
@@ -92,17 +92,17 @@ harnesses! {
         assert!(u.to_comp().to_bits() == oracle::iupac_comp(a) | oracle::iupac_comp(b), "C12.symbol.complement_distributes_over_union");
         reach!(a & b == 0 && a != 0 && b != 0, "disjoint");
     }
-    fn c12_q_or_15_7_n1 [6] { bitop!(15, 7, 1, true) }
-    fn c12_q_and_0_4_n1 [6] { bitop!(0, 4, 1, false) }
-    fn c12_q_contains_15_1_1_1 [6] { contains!(15, 1, 1, 1, 0) }
-    fn c12_q_contains_owned_1_1_9_1 [6] { contains!(1, 1, 9, 1, 1) }
+    fn c12_q_or_15_7_n1 [10] { bitop!(15, 7, 1, true) }
+    fn c12_q_and_0_4_n1 [10] { bitop!(0, 4, 1, false) }
+    fn c12_q_contains_15_1_1_1 [10] { contains!(15, 1, 1, 1, 0) }
+    fn c12_q_contains_owned_1_1_9_1 [10] { contains!(1, 1, 9, 1, 1) }
     fn c12_t_or_0_4_n2 [10] { bitop!(0, 4, 2, true) }
     fn c12_t_and_15_1_n2 [10] { bitop!(15, 1, 2, false) }
     fn c12_t_or_15_7_n3 [10] { bitop!(15, 7, 3, true) }
     fn c12_t_and_0_15_n3 [10] { bitop!(0, 15, 3, false) }
     fn c12_t_or_1_1_n3 [10] { bitop!(1, 1, 3, true) }
     fn c12_t_and_14_3_n4 [10] { bitop!(14, 3, 4, false) }
-    fn c12_t_empty_ops [3] {
+    fn c12_t_empty_ops [10] {
         let w = any_words::<2>();
         let s = arr::<Iupac, 32, 2>(w);
         let r = &s[3..3] | &s[9..9];
